@@ -213,14 +213,18 @@ def check_regrid_case(ctx, x, y, step, flags=(), source='generated'):
         except Exception as exc:  # pylint: disable=broad-except
             rec.violation('series-refused-in-another-container', {'form': name, 'exception': core.describe_exception(exc)}, case, 'regrid')
             return out
-        # same levels; positions to the accuracy of the root finder (another byte order takes
-        # another arithmetic path through numpy: last-digit differences are rounding)
-        width = float(np.max(np.abs(np.diff(fx)))) if len(fx) > 1 else 1.0
-        same = [int(k) for k, _ in other] == [int(k) for k, _ in out] and all(
-            abs(float(a) - float(b)) <= 1e-9 * max(width, 1e-300) + 4e-15 * abs(float(a)) for (_, a), (_, b) in zip(out, other))
-        if not same:
+        # the same levels must be reported, and the positions must satisfy the property on their own
+        # (judged by the same oracle as the plain result: on a nearly flat chord another byte order,
+        # which takes another arithmetic path through numpy, legitimately lands elsewhere within the
+        # conditioning of the crossing)
+        if [int(k) for k, _ in other] != [int(k) for k, _ in out]:
             rec.violation('crossings-depend-on-the-container-of-the-series', {'form': name, 'plain': [(int(k), float(v)) for k, v in out[:6]],
                                                                              'other': [(int(k), float(v)) for k, v in other[:6]]}, case, 'regrid')
+            return out
+        errs_other, _ = oracle_regrid.check([float(v) for v in x], [float(v) for v in y], float(step), other)
+        if errs_other:
+            key, w = errs_other[0]
+            rec.violation('in-another-container:' + key, dict(w, form=name), case, 'regrid')
             return out
         rec.hit('series-in-other-containers-compared')
     errs, info = oracle_regrid.check([float(v) for v in x], [float(v) for v in y], float(step), out)
